@@ -158,10 +158,10 @@ theorem fields_split (s : RS) (kvs : List (Str × V)) (g : V → RS → Bool)
 /-! ### wf of the parts -/
 
 theorem wf_parts (t : Option Ty) (n r w : Bool) (ml : Nat) (mx : Option Int) (props : List (Str × RS))
-    (req : List Str) (a : Option Bool) (items nt : Option RS) (oneOf anyOf allOf : List RS) (dflt : Option V)
+    (req : List Str) (a : Option Bool) (items nt : Option RS) (oneOf anyOf allOf : List RS) (dflt : Extra)
     (h : (RS.mk t n r w ml mx props req a items nt oneOf anyOf allOf dflt).wf = true) :
     (keys props).Nodup ∧ wfProps props = true ∧ wfOpt items = true ∧ wfOpt nt = true ∧ wfList oneOf = true ∧
-    wfList anyOf = true ∧ wfList allOf = true ∧ wfDflt dflt = true := by
+    wfList anyOf = true ∧ wfList allOf = true ∧ wfDflt dflt.dflt = true := by
   unfold RS.wf at h
   simp only [Bool.and_eq_true] at h
   obtain ⟨⟨⟨⟨⟨⟨⟨h1, h2⟩, h3⟩, h4⟩, h5⟩, h6⟩, h7⟩, h8⟩ := h
@@ -386,13 +386,18 @@ theorem visD_off (exro : Bool) : ∀ (v : V), v.wf = true → ∀ s, s.wf = true
     have hvp := visProps_off exro kvs s'.props hprops.2
       (fun k x hm p hp => ih hv'.2 (k, x) hm p hp)
     have e : ownK false exro s' (visProps false exro s'.props) (visItems false exro s'.items) (.obj kvs) =
-        if permits s'.ty .object && roLoopOK exro s'.props (keys kvs) && addlOKD s' kvs && requiredOK s' (keys kvs)
+        if permits s'.ty .object && roLoopOK exro s'.props (keys kvs) && countOK s' kvs.length && addlOKD s' kvs &&
+           requiredOK s' (keys kvs)
         then (visProps false exro s'.props kvs).map .obj else none := rfl
     rw [e]
     unfold ownObj
-    rw [hvp, keys_visitFields, fieldsOK_visitFields,
+    have hlen : (visitFields exro kvs).length = kvs.length := by
+      have := congrArg List.length (keys_visitFields exro kvs)
+      simpa [keys] using this
+    rw [hvp, keys_visitFields, fieldsOK_visitFields, hlen,
       fields_split s' kvs (fun x p => visitV exro x p) hnk hprops.1]
-    cases permits s'.ty .object <;> cases roLoopOK exro s'.props (keys kvs) <;> cases addlOKD s' kvs <;>
+    cases permits s'.ty .object <;> cases roLoopOK exro s'.props (keys kvs) <;> cases countOK s' kvs.length <;>
+      cases addlOKD s' kvs <;>
       cases requiredOK s' (keys kvs) <;>
       cases (s'.props.all fun kp => match lookup kp.1 kvs with | none => true | some x => visitV exro x kp.2) <;> simp
   case inil => intro _ x hx; cases hx
@@ -635,6 +640,7 @@ theorem visD_on_eq_off_of_not_fires (exro : Bool) :
       have e : ∀ ds, ownK ds exro (RS.mk t n r w ml mx props req a items nt oneOf anyOf allOf dflt)
           (visProps ds exro props) (visItems ds exro items) (.obj kvs) =
           if permits t .object && roLoopOK exro props (keys (injD ds exro props kvs)) &&
+             countOK (RS.mk t n r w ml mx props req a items nt oneOf anyOf allOf dflt) (injD ds exro props kvs).length &&
              addlOKD (RS.mk t n r w ml mx props req a items nt oneOf anyOf allOf dflt) (injD ds exro props kvs) &&
              requiredOK (RS.mk t n r w ml mx props req a items nt oneOf anyOf allOf dflt) (keys (injD ds exro props kvs))
           then (visProps ds exro props (injD ds exro props kvs)).map .obj else none := fun _ => rfl
@@ -818,7 +824,7 @@ theorem visProps_isSome (ds exro : Bool) (props : List (Str × RS)) (hn : (keys 
 
 /-- `visD` of a schema without composition keywords -/
 theorem visD_compFree (ds exro : Bool) (t : Option Ty) (n r w : Bool) (ml : Nat) (mx : Option Int)
-    (props : List (Str × RS)) (req : List Str) (a : Option Bool) (items : Option RS) (dflt : Option V) (v : V) :
+    (props : List (Str × RS)) (req : List Str) (a : Option Bool) (items : Option RS) (dflt : Extra) (v : V) :
     visD ds exro (RS.mk t n r w ml mx props req a items none [] [] [] dflt) v =
       if v.isNull && n then some v
       else if isEmptyLeaf (RS.mk t n r w ml mx props req a items none [] [] [] dflt) then
@@ -902,6 +908,7 @@ theorem visD_neutral_compFree (exro : Bool) :
     have e : ∀ ds, ownK ds exro (RS.mk t n r w ml mx props req a items none [] [] [] dflt)
         (visProps ds exro props) (visItems ds exro items) (.obj kvs) =
         if permits t .object && roLoopOK exro props (keys (injD ds exro props kvs)) &&
+           countOK (RS.mk t n r w ml mx props req a items none [] [] [] dflt) (injD ds exro props kvs).length &&
            addlOKD (RS.mk t n r w ml mx props req a items none [] [] [] dflt) (injD ds exro props kvs) &&
            requiredOK (RS.mk t n r w ml mx props req a items none [] [] [] dflt) (keys (injD ds exro props kvs))
         then (visProps ds exro props (injD ds exro props kvs)).map .obj else none := fun _ => rfl
@@ -910,12 +917,29 @@ theorem visD_neutral_compFree (exro : Bool) :
     have L := lookup_inject exro props hnd
     -- what `dfltsHarmlessHere` says of one property
     have hereP : ∀ k p d, (k, p) ∈ props → dfltFor exro p = some d →
-        (visD true exro p d).isSome = true ∧ req.contains k = false := by
+        (visD true exro p d).isSome = true ∧ req.contains k = false ∧
+        (dflt.minProps != 0 || dflt.maxProps.isSome) = false := by
       intro k p d hm hd
       unfold dfltsHarmlessHere at hhere
       have := List.all_eq_true.mp hhere (k, p) hm
       simp only [hd, Bool.and_eq_true, Bool.not_eq_true'] at this
-      exact this
+      exact ⟨this.1.1, this.1.2, this.2⟩
+    have C : countOK (RS.mk t n r w ml mx props req a items none [] [] [] dflt) (inject exro props kvs).length =
+        countOK (RS.mk t n r w ml mx props req a items none [] [] [] dflt) kvs.length := by
+      cases hinj : injects exro props kvs with
+      | false => rw [inject_of_not_injects exro props kvs hinj]
+      | true =>
+        unfold injects at hinj
+        obtain ⟨kp, hkp, hc⟩ := List.any_eq_true.mp hinj
+        simp only [Bool.and_eq_true] at hc
+        cases hd : dfltFor exro kp.2 with
+        | none => simp [hd] at hc
+        | some d =>
+          have hcnt := (hereP kp.1 kp.2 d (by simpa using hkp) hd).2.2
+          simp only [Bool.or_eq_false_iff, bne_eq_false_iff_eq, Option.isSome_eq_false_iff,
+            Option.isNone_iff_eq_none] at hcnt
+          unfold countOK
+          simp [RS.minProps, RS.maxProps, RS.extra, hcnt.1, hcnt.2]
     have R : roLoopOK exro props (keys (inject exro props kvs)) = roLoopOK exro props (keys kvs) := by
       unfold roLoopOK
       apply all_congr_mem
@@ -965,7 +989,7 @@ theorem visD_neutral_compFree (exro : Bool) :
           cases hd : dfltFor exro p with
           | none => rfl
           | some d =>
-            have := (hereP k p d (lookup_some_mem k props p hlp) hd).2
+            have := (hereP k p d (lookup_some_mem k props p hlp) hd).2.1
             have hc : req.contains k = true := by simpa using hk
             rw [hc] at this; cases this
     have P : (visProps true exro props (inject exro props kvs)).isSome = (visProps false exro props kvs).isSome := by
@@ -983,8 +1007,9 @@ theorem visD_neutral_compFree (exro : Bool) :
         cases hd : dfltFor exro kp.2 with
         | none => rfl
         | some d => simp only; exact (hereP kp.1 kp.2 d (by simpa using hkp) hd).1
-    rw [R, A, Q]
+    rw [R, A, Q, C]
     cases (permits t .object && roLoopOK exro props (keys kvs) &&
+        countOK (RS.mk t n r w ml mx props req a items none [] [] [] dflt) kvs.length &&
         addlOKD (RS.mk t n r w ml mx props req a items none [] [] [] dflt) kvs &&
         requiredOK (RS.mk t n r w ml mx props req a items none [] [] [] dflt) (keys kvs)) with
     | false => rfl
